@@ -139,7 +139,7 @@ func c06Step(p *IPPool, r *refPool, op c06Op) string {
 	return ""
 }
 
-func c06Explore(res *vResult, cidr string, nsess int, maxStates int) {
+func c06Explore(res *vResult, cidr string, nsess int, maxStates int, maxDepth int) {
 	p0, err := NewIPPool(cidr)
 	if err != nil {
 		res.finding("c06:construct:"+cidr, "NewIPPool("+cidr+") failed: "+err.Error(), c06Case{CIDR: cidr})
@@ -153,7 +153,12 @@ func c06Explore(res *vResult, cidr string, nsess int, maxStates int) {
 	seen := map[string]bool{c06Key(p0): true}
 	frontier := []node{{p0, newRefPool(cidr), nil}}
 	states := 1
-	for len(frontier) > 0 {
+	for depth := 1; len(frontier) > 0; depth++ {
+		if maxDepth > 0 && depth > maxDepth {
+			// every history up to maxDepth operations has been executed; the bound is stated in the evidence
+			res.Extra["depth_bound_"+cidr] = maxDepth
+			break
+		}
 		var next []node
 		for _, n := range frontier {
 			for s := uint64(1); s <= uint64(nsess); s++ {
@@ -194,7 +199,7 @@ func TestVerifC06(t *testing.T) {
 	vQuietLoggers()
 	res := vNewResult()
 	defer res.write(t)
-	res.Rule = "real IPPool: complete reachable state space (free list x inventory) under {alloc/lookup(s), release(s)} for s in 1..n+1 on /30 and /29 (quick: /29 capped), depth/size-bounded on /28 and /27; " +
+	res.Rule = "real IPPool: complete reachable state space (free list x inventory) under {alloc/lookup(s), release(s)} for s in 1..n+1 on /30 and /29 (complete: the frontier empties), every history up to 8 (thorough 13) operations on a /28 and up to 10 (thorough 16) on a /27; " +
 		"construction for every prefix length 12..32 and IPv6; end-to-end establishments with the UE IP Address flag lattice reading Created PDR; concurrent part: TestVerifC06Sched (scheduler engine). " +
 		"distinct_nontrivial = distinct pool states"
 	res.Assumptions = []string{"refPool is a set: in range, never network/broadcast, injective, sticky, release frees exactly that address, refusal iff all held", "prefixes shorter than /12 are skipped (the pool materialises every address)"}
@@ -220,14 +225,17 @@ func TestVerifC06(t *testing.T) {
 		cidr  string
 		nsess int
 		cap   int
-	}{{"10.250.0.0/30", 3, 1 << 30}, {"10.250.0.8/29", 7, 150000}, {"10.250.0.16/28", 3, 60000}, {"10.250.0.32/27", 2, 40000}, {"192.168.255.252/30", 3, 1 << 30}}
+		depth int
+	}{{"10.250.0.0/30", 3, 1 << 30, 0}, {"10.250.0.8/29", 7, 1 << 30, 0}, {"10.250.0.16/28", 3, 1 << 30, 8}, {"10.250.0.32/27", 2, 1 << 30, 10}, {"192.168.255.252/30", 3, 1 << 30, 0}}
 	if vEnv.Thorough {
-		work[1].cap, work[2].cap, work[3].cap = 3000000, 1000000, 1000000
+		// deeper, and size-capped as a safety net (a cap that is hit is reported as exhaustive:false)
 		work[2].nsess, work[3].nsess = 4, 3
+		work[2].depth, work[3].depth = 13, 16
+		work[2].cap, work[3].cap = 3000000, 3000000
 	}
 	for i, w := range work {
 		if vMine(i) {
-			c06Explore(res, w.cidr, w.nsess, w.cap)
+			c06Explore(res, w.cidr, w.nsess, w.cap, w.depth)
 		}
 	}
 	// construction: every prefix length
